@@ -33,6 +33,7 @@ pub const T_RWWRITE: u8 = 9;
 pub const T_READ: u8 = 10; // UnixStream read
 pub const T_SELECT: u8 = 11;
 pub const T_YIELD: u8 = 12;
+pub const T_RWREAD: u8 = 13; // RwLock read (blocks behind the granter's write guard)
 pub const G: u8 = 30;
 pub const PRE: u8 = 31; // waiting for the granter to take its locks
 
@@ -49,6 +50,7 @@ pub fn opname(op: u8) -> &'static str {
         T_FLAG => "SyncFlag.wait",
         T_RWWRITE => "RwLock.write",
         T_READ => "UnixStream.read",
+        T_RWREAD => "RwLock.read",
         T_SELECT => "cqueue.poll",
         T_YIELD => "yield",
         G => "grant",
@@ -119,6 +121,16 @@ fn rw_section(sh: &Shared) {
     let o = Occ(&sh.occ_rw);
     *g += 1;
     drop(o);
+    drop(g);
+}
+
+fn rw_read_section(sh: &Shared) {
+    let g = sh.rw.read().unwrap();
+    // no writer (the granter counts as one while it holds its write guard) may be inside
+    if sh.occ_rw.load(Ordering::SeqCst) != 0 {
+        sh.excl_bad.fetch_add(1, Ordering::SeqCst);
+    }
+    let _ = *g;
     drop(g);
 }
 
@@ -231,6 +243,7 @@ pub fn run(case: &Case) -> Outcome {
                         }
                         T_FLAG => sh.flag.wait(),
                         T_RWWRITE => rw_section(&sh),
+                        T_RWREAD => rw_read_section(&sh),
                         T_READ => {
                             let mut b = [0u8; 1];
                             let mut g = sock.lock().unwrap_or_else(|e| e.into_inner());
@@ -281,7 +294,7 @@ pub fn run(case: &Case) -> Outcome {
                     let _dg = DoneGuard(&states, ai);
                     // take the locks the target (and bystanders) will have to wait for
                     let need_m1 = tops.iter().any(|o| o.0 == T_LOCK) || nb[T_LOCK as usize] > 0;
-                    let need_rw = tops.iter().any(|o| o.0 == T_RWWRITE) || nb[T_RWWRITE as usize] > 0;
+                    let need_rw = tops.iter().any(|o| matches!(o.0, T_RWWRITE | T_RWREAD)) || nb[T_RWWRITE as usize] + nb[T_RWREAD as usize] > 0;
                     let mut g1 = if need_m1 { Some(sh.m1.lock().unwrap()) } else { None };
                     let mut g2 = if need_rw { Some(sh.rw.write().unwrap()) } else { None };
                     if g1.is_some() {
@@ -333,7 +346,7 @@ pub fn run(case: &Case) -> Outcome {
                                 }
                             }
                             T_FLAG => sh.flag.fire(),
-                            T_RWWRITE => {
+                            T_RWWRITE | T_RWREAD => {
                                 if let Some(g) = g2.take() {
                                     sh.occ_rw.fetch_sub(1, Ordering::SeqCst);
                                     drop(g);
@@ -420,6 +433,7 @@ pub fn run(case: &Case) -> Outcome {
                             }
                         }
                         T_FLAG => sh.flag.wait(),
+                        T_RWREAD => rw_read_section(&sh),
                         _ => rw_section(&sh),
                     }
                     states.leave(ai, 0);
@@ -577,12 +591,12 @@ pub fn run(case: &Case) -> Outcome {
 
 pub fn strategy(g: &GenCfg) -> BoxedStrategy<Case> {
     let g2 = g.clone();
-    let kinds = vec![T_PARK, T_SLEEP, T_LOCK, T_SEM, T_CV, T_MPSC, T_MPMC, T_JOIN, T_FLAG, T_RWWRITE, T_SELECT, T_YIELD, T_READ];
+    let kinds = vec![T_PARK, T_SLEEP, T_LOCK, T_SEM, T_CV, T_MPSC, T_MPMC, T_JOIN, T_FLAG, T_RWWRITE, T_SELECT, T_YIELD, T_READ, T_RWREAD];
     let tops = proptest::sample::subsequence(kinds, 1..=4).prop_shuffle().prop_flat_map(|ks| {
         let n = ks.len();
         (Just(ks), proptest::collection::vec(1u32..600_000, n))
     });
-    (tops, 0i64..2, 0i64..4, 0u8..2, proptest::collection::vec((prop_oneof![Just(T_SEM), Just(T_CV), Just(T_LOCK), Just(T_MPMC), Just(T_FLAG), Just(T_RWWRITE)], 0u8..2), 0..=2), proptest::collection::vec(prop_oneof![2 => 0u32..3_000, 2 => 0u32..400_000], 4))
+    (tops, 0i64..2, 0i64..4, 0u8..2, proptest::collection::vec((prop_oneof![Just(T_SEM), Just(T_CV), Just(T_LOCK), Just(T_MPMC), Just(T_FLAG), Just(T_RWWRITE), Just(T_RWREAD)], 0u8..2), 0..=2), proptest::collection::vec(prop_oneof![2 => 0u32..3_000, 2 => 0u32..400_000], 4))
         .prop_flat_map(move |((ks, args), hold, nvals, gctx, bys, delays)| {
             let total: u32 = delays.iter().sum::<u32>() + 300_000;
             (Just((ks, args, hold, nvals, gctx, bys, delays)), canceller_strategy(1, total), gen::config(&g2), gen::schedule(&g2, false))
